@@ -45,7 +45,14 @@ func (e *Exec) load(p *PtrV) Value {
 	if p.Obj == nil {
 		e.goPanic("nil dereference", nil)
 	}
-	return copyVal(e.loadPath(p.Obj.V, p.Path))
+	v := e.loadPath(p.Obj.V, p.Path)
+	if b, ok := v.(*BigV); ok && !e.inInit {
+		// a big.Int read BY VALUE (z := *i): the copy shares its limb storage with the original
+		if b.Cell == nil {
+			b.Cell = &bigCell{V: b.V, Bits: b.Bits}
+		}
+	}
+	return copyVal(v)
 }
 
 func (e *Exec) loadPath(v Value, path []PathElem) Value {
